@@ -91,7 +91,8 @@ CLAIMS = {
          "every ValidState, mode and configuration, emulate_cycle returns, takes an architectural exception, or raises "
          "NotImplementedError; every potential host error (attribute/type/index/key/assertion/unbound-local/struct/value/zero-division) "
          "is an explicit path that must be infeasible, UNPREDICTABLE paths included; the same for the memory path below the accessor contracts "
-         "(accessors, fetch, translation PMSA/VMSA, hub) and for steps starting with CPSR.J = 1.", "DESIGN.md 10 C18"),
+         "(accessors, fetch, translation PMSA/VMSA stage 1 outside Hyp mode, hub) and for steps starting with CPSR.J = 1. NOT covered: "
+         "Hyp-mode and stage-2 translation (the C15 units exclude them; a host error there, HTCR.rgn0, was found by a reader and repaired).", "DESIGN.md 10 C18"),
  'C19': ("Whole-step proof for every instruction word with CPSR.M = User: afterwards still User with A/I/F, all other modes' banked "
          "registers and SPSRs and every system register unchanged, or an architectural exception was entered with SPSR.M = User; last clause: "
          "the unprivileged load/store rows (LDRT..STRHT) functionally, the privilege of every translation request of the accessors "
